@@ -206,7 +206,32 @@ theorem compile_f_frame (c : CInst) :
     simp only [compile, List.mem_cons, List.not_mem_nil, or_false, not_or] at hx
     show setR (setR _ _ _) _ _ x = r x
     rw [setR_ne _ _ _ _ hx.2, setR_ne _ _ _ _ hx.1]
+  | svcc v =>
+    simp only [compile, List.mem_cons, List.not_mem_nil, or_false] at hx
+    exact setR_ne _ _ _ _ hx
+  | vcmp s a =>
+    simp only [compile, List.mem_cons, List.not_mem_nil, or_false] at hx
+    exact setR_ne _ _ _ _ hx
+  | vrfl d a =>
+    simp only [compile, List.mem_cons, List.not_mem_nil, or_false] at hx
+    exact setR_ne _ _ _ _ hx
   | _ => rfl
+
+theorem lanes_headD_lt (e : Nat) : (lanes e).headD 0 < 64 := by
+  cases hl : lanes e with
+  | nil => simp only [List.headD_nil]; omega
+  | cons x t =>
+    simp only [List.headD_cons]
+    exact ((mem_lanes e x).1 (hl ▸ List.mem_cons_self ..)).1
+
+theorem vcmp_filter_congr (r r' : RF) (s a : Nat) (he : r EXEC = r' EXEC)
+    (hs : r (sreg s) = r' (sreg s)) (ha : ∀ l, l < 64 → r (vreg a l) = r' (vreg a l)) :
+    (lanes (execOf r)).filter (fun l => decide (r (sreg s) % M32 < r (vreg a l) % M32)) =
+    (lanes (execOf r')).filter (fun l => decide (r' (sreg s) % M32 < r' (vreg a l) % M32)) := by
+  rw [← execOf_congr r r' he]
+  apply List.filter_congr
+  intro l hl
+  rw [hs, ha l ((mem_lanes _ _).1 hl).1]
 
 /-- the vector ALU pattern: the value of an active lane's cell depends on `rd` only -/
 theorem vec_f_dep (d : Nat) (r r' : RF) (g g' : Nat → Nat) (x : Nat) (he : r EXEC = r' EXEC)
@@ -305,6 +330,25 @@ theorem compile_f_dep (c : CInst) :
     · have h2 : x = sreg d := by cases hx with | inl h => exact h | inr h => exact absurd h h1
       rw [setR_ne _ _ _ _ h1, setR_ne _ _ _ _ h1]
       exact setR_at _ _ _ _ _ h2
+  | svcc v =>
+    simp only [compile, List.mem_cons, List.not_mem_nil, or_false] at hx
+    simp only [compile]
+    exact setR_at _ _ _ _ _ hx
+  | vcmp s a =>
+    have he : r EXEC = r' EXEC := h _ (by simp [compile])
+    have hs : r (sreg s) = r' (sreg s) := h _ (by simp [compile])
+    have ha : ∀ l, l < 64 → r (vreg a l) = r' (vreg a l) := fun l hl =>
+      h _ (by simp [compile, vreg_mem_vregsOf a l hl])
+    simp only [compile, List.mem_cons, List.not_mem_nil, or_false] at hx
+    simp only [compile, vcmp_filter_congr r r' s a he hs ha]
+    exact setR_at _ _ _ _ _ hx
+  | vrfl d a =>
+    have he : r EXEC = r' EXEC := h _ (by simp [compile])
+    have ha : ∀ l, l < 64 → r (vreg a l) = r' (vreg a l) := fun l hl =>
+      h _ (by simp [compile, vreg_mem_vregsOf a l hl])
+    simp only [compile, List.mem_cons, List.not_mem_nil, or_false] at hx
+    simp only [compile, ← execOf_congr r r' he, ha _ (lanes_headD_lt (execOf r))]
+    exact setR_at _ _ _ _ _ hx
   | _ => exact h x (List.mem_append_right _ hx)
 
 theorem compile_tgt_dep (c : CInst) :
@@ -314,6 +358,9 @@ theorem compile_tgt_dep (c : CInst) :
   | cbr on off =>
     have hs : r SCC = r' SCC := h _ (by simp [compile])
     simp only [compile, hs]
+  | cbrv on off =>
+    have hs : r VCC = r' VCC := h _ (by simp [compile])
+    simp only [compile, hs]
   | _ => rfl
 
 theorem compile_tgt_rel (c : CInst) :
@@ -322,6 +369,11 @@ theorem compile_tgt_rel (c : CInst) :
   cases c with
   | br off => exact brTarget_pcAdd off p 4
   | cbr on off =>
+    simp only [compile]
+    split
+    · exact brTarget_pcAdd off p 4
+    · rfl
+  | cbrv on off =>
     simp only [compile]
     split
     · exact brTarget_pcAdd off p 4
@@ -549,14 +601,23 @@ theorem cprog_pfx (base : Nat) (cs : List CInst) (foreign : Nat → Bool) :
   | [_], _, hlen => simp only [List.length_cons, List.length_nil] at hlen; omega
   | [_, _], _, hlen => simp only [List.length_cons, List.length_nil] at hlen; omega
 
-/-- `Prog.WF` of a compiled program without `s_getpc_b64` -/
-theorem cprog_wf (base : Nat) (cs : List CInst) (foreign : Nat → Bool)
-    (hg : ∀ d, CInst.getpc d ∉ cs) :
+/-- only the scalar unit's `s_getpc_b64` looks at the PC -/
+theorem compile_pcOK (c : CInst) : (compile c).PcOK := by
+  intro u hk hu
+  by_cases h : ∃ d, c = .getpc d
+  · obtain ⟨d, rfl⟩ := h
+    simp only [compile, Kind.alu.injEq] at hk
+    exact absurd hk.symm hu
+  · exact compile_pcIndep c (fun d e => h ⟨d, e⟩)
+
+/-- `Prog.WF` of every compiled program -/
+theorem cprog_wf (base : Nat) (cs : List CInst) (foreign : Nat → Bool) :
     (cprog base cs foreign).WF where
+  fixed := rfl
   inst := by
     intro l i h
-    obtain ⟨c, hc, rfl⟩ := cprog_dec_some base cs foreign l i h
-    exact ⟨compile_wf c, compile_pcIndep c (fun d e => hg d (e ▸ hc))⟩
+    obtain ⟨c, _, rfl⟩ := cprog_dec_some base cs foreign l i h
+    exact ⟨compile_wf c, compile_pcOK c⟩
   pfx := cprog_pfx base cs foreign
 
 /-! ## layout: the window at the start of instruction `k` decodes to instruction `k` -/
